@@ -332,7 +332,7 @@ struct Op
             return s + std::to_string(other);
         bool two = code == "EM" || code == "EMS" || code == "IR" || code == "NEWIT" || code == "WR" || code == "LA" || code == "NEWIL" || code == "PBR" || code == "IRI" || code == "PBRI";
         bool one = two || code == "NEW" || code == "EB" || code == "PB" || code == "IC" || code == "IM" || code == "EBS" || code == "PBS" || code == "ICS" || code == "ER" ||
-                   code == "AT" || code == "ATC" || code == "GET";
+                   code == "AT" || code == "ATC" || code == "GET" || code == "EB0";
         if (one)
             s += std::to_string(a);
         if (two)
@@ -932,6 +932,43 @@ struct World
                 r.vals.push_back(value);
                 if (ret != size0)
                     fail("C07", "append-returned-wrong-index", what + " returned " + std::to_string(ret) + " expected " + std::to_string(size0));
+            }
+            return true;
+        }
+        if (c == "EB0")
+        {
+            // emplace_back() without arguments appends a value-initialised element (whatever the slot held before); the
+            // caller then gives it the value a
+            size_t ret = 999;
+            guarded([&] { ret = v.emplace_back(); });
+            if (fault)
+            {
+                strong_on_construction_fault(before_visible, s, what);
+                return false;
+            }
+            if (full)
+                expect_throw_unchanged(threw, non_std, before, s, what + " on a full container");
+            else if (threw)
+            {
+                fail("C07", "append-threw-with-capacity-left", what + " threw; container " + before);
+                resync(s);
+            }
+            else
+            {
+                if (ret != size0)
+                    fail("C07", "append-returned-wrong-index", what + " returned " + std::to_string(ret) + " expected " + std::to_string(size0));
+                else if (v.size() != size0 + 1)
+                    fail("C07", "append-did-not-grow-the-sequence", what + ": size " + std::to_string(v.size()));
+                else if (v.data()[ret].mark != 'U' || v.data()[ret].v != T().v)
+                    fail("C07", "argument-less-emplace_back-did-not-append-a-value-initialised-element",
+                         what + ": the new element shows " + std::string(1, v.data()[ret].mark) + std::to_string(v.data()[ret].v) + " (a stale slot?); container before " + before);
+                if (v.size() == size0 + 1)
+                {
+                    assign_value(v[size0], op.a);
+                    r.vals.push_back(op.a);
+                }
+                else
+                    resync(s);
             }
             return true;
         }
